@@ -5,7 +5,14 @@ import (
 	"reflect"
 	"sort"
 	"sync"
+	"unsafe"
 )
+
+// Race-detector view (race_on.go): each primitive hides its own bookkeeping
+// (raceOff/raceOn) and announces the happens-before edges of its real
+// counterpart in package sync, no more: Unlock -> later Lock; RUnlock -> later
+// Lock and Unlock -> later RLock, but not RUnlock -> RLock; Done -> Wait's
+// return; the end of Once's function -> every Do's return.
 
 // Mutex has sync.Mutex's method set.  Inside a simulation it is a scheduler-
 // visible lock (a task that cannot take it is parked as blocked on it);
@@ -17,11 +24,18 @@ type Mutex struct {
 }
 
 func (m *Mutex) Lock() {
+	m.lock()
+	raceAcquire(unsafe.Pointer(m))
+}
+
+func (m *Mutex) lock() {
 	s := current.Load()
 	if s == nil {
 		m.real.Lock()
 		return
 	}
+	raceOff()
+	defer raceOn()
 	t := s.self()
 	if t == nil {
 		panic("simrt.Mutex.Lock on a goroutine that is not a task")
@@ -49,7 +63,10 @@ func (m *Mutex) TryLock() bool {
 		return false
 	}
 	m.locked = true
+	raceOff()
 	m.owner = s.self()
+	raceOn()
+	raceAcquire(unsafe.Pointer(m))
 	return true
 }
 
@@ -59,6 +76,7 @@ func (m *Mutex) Unlock() {
 		m.real.Unlock()
 		return
 	}
+	raceRelease(unsafe.Pointer(m))
 	if s.stopping.Load() {
 		return
 	}
@@ -87,11 +105,19 @@ type RWMutex struct {
 }
 
 func (m *RWMutex) Lock() {
+	m.lock()
+	raceAcquire(unsafe.Pointer(&m.writer))
+	raceAcquire(unsafe.Pointer(&m.readers))
+}
+
+func (m *RWMutex) lock() {
 	s := current.Load()
 	if s == nil {
 		m.real.Lock()
 		return
 	}
+	raceOff()
+	defer raceOn()
 	t := s.self()
 	if t == nil {
 		panic("simrt.RWMutex.Lock on a goroutine that is not a task")
@@ -125,16 +151,24 @@ func (m *RWMutex) Unlock() {
 	if !m.writer {
 		panic("sync: Unlock of unlocked RWMutex")
 	}
+	raceRelease(unsafe.Pointer(&m.writer))
 	m.writer = false
 	m.wowner = nil
 }
 
 func (m *RWMutex) RLock() {
+	m.rlock()
+	raceAcquire(unsafe.Pointer(&m.writer))
+}
+
+func (m *RWMutex) rlock() {
 	s := current.Load()
 	if s == nil {
 		m.real.RLock()
 		return
 	}
+	raceOff()
+	defer raceOn()
 	t := s.self()
 	if t == nil {
 		panic("simrt.RWMutex.RLock on a goroutine that is not a task")
@@ -165,6 +199,7 @@ func (m *RWMutex) RUnlock() {
 	if m.readers <= 0 {
 		panic("sync: RUnlock of unlocked RWMutex")
 	}
+	raceReleaseMerge(unsafe.Pointer(&m.readers))
 	m.readers--
 }
 
@@ -179,7 +214,11 @@ func (m *RWMutex) TryLock() bool {
 		return false
 	}
 	m.writer = true
+	raceOff()
 	m.wowner = s.self()
+	raceOn()
+	raceAcquire(unsafe.Pointer(&m.writer))
+	raceAcquire(unsafe.Pointer(&m.readers))
 	return true
 }
 
@@ -192,6 +231,7 @@ func (m *RWMutex) TryRLock() bool {
 		return false
 	}
 	m.readers++
+	raceAcquire(unsafe.Pointer(&m.writer))
 	return true
 }
 
@@ -217,6 +257,9 @@ func (w *WaitGroup) Add(d int) {
 	if s.stopping.Load() {
 		return
 	}
+	if d < 0 {
+		raceReleaseMerge(unsafe.Pointer(w))
+	}
 	w.n += d
 	if w.n < 0 {
 		panic("sync: negative WaitGroup counter")
@@ -226,11 +269,18 @@ func (w *WaitGroup) Add(d int) {
 func (w *WaitGroup) Done() { w.Add(-1) }
 
 func (w *WaitGroup) Wait() {
+	w.wait()
+	raceAcquire(unsafe.Pointer(w))
+}
+
+func (w *WaitGroup) wait() {
 	s := current.Load()
 	if s == nil {
 		w.real.Wait()
 		return
 	}
+	raceOff()
+	defer raceOn()
 	t := s.self()
 	if t == nil {
 		panic("simrt.WaitGroup.Wait on a goroutine that is not a task")
@@ -254,6 +304,8 @@ func SelectOrder(site string, n int) []int {
 		p[i] = i
 	}
 	s := current.Load()
+	raceOff()
+	defer raceOn()
 	if s == nil || s.stopping.Load() || s.self() == nil {
 		return p
 	}
@@ -304,6 +356,8 @@ func MapOrder[K comparable, V any](m map[K]V) []K {
 		out[i] = keys[j]
 	}
 	s := current.Load()
+	raceOff()
+	defer raceOn()
 	if s == nil || s.stopping.Load() || s.self() == nil {
 		return out
 	}
@@ -355,18 +409,27 @@ func (o *Once) Do(f func()) {
 		return
 	}
 	if o.done {
+		raceAcquire(unsafe.Pointer(o))
 		return
 	}
-	t := s.self()
 	if o.running {
-		if t == nil {
-			panic("simrt.Once.Do on a goroutine that is not a task")
-		}
-		s.park(t, "Once.Do", "once (another caller is running the function)", func() bool { return o.done }, zeroTime, false)
+		func() {
+			raceOff()
+			defer raceOn()
+			t := s.self()
+			if t == nil {
+				panic("simrt.Once.Do on a goroutine that is not a task")
+			}
+			s.park(t, "Once.Do", "once (another caller is running the function)", func() bool { return o.done }, zeroTime, false)
+		}()
+		raceAcquire(unsafe.Pointer(o))
 		return
 	}
 	o.running = true
-	defer func() { o.done, o.running = true, false }()
+	defer func() {
+		raceRelease(unsafe.Pointer(o))
+		o.done, o.running = true, false
+	}()
 	f()
 }
 
@@ -385,14 +448,18 @@ func (c *Cond) Wait() {
 		c.real.Wait()
 		return
 	}
-	t := s.self()
-	if t == nil {
-		panic("simrt.Cond.Wait on a goroutine that is not a task")
-	}
 	woken := false
 	c.waiters = append(c.waiters, &woken)
 	c.L.Unlock()
-	s.park(t, "Cond.Wait", "condition variable", func() bool { return woken }, zeroTime, false)
+	func() {
+		raceOff()
+		defer raceOn()
+		t := s.self()
+		if t == nil {
+			panic("simrt.Cond.Wait on a goroutine that is not a task")
+		}
+		s.park(t, "Cond.Wait", "condition variable", func() bool { return woken }, zeroTime, false)
+	}()
 	c.L.Lock()
 }
 
